@@ -28,7 +28,14 @@ Fixpoint pyval_eqb (a b : pyval) {struct a} : bool :=
   | PList l, PList m => eq_list l m
   | PTuple l, PTuple m => eq_list l m
   | PDeque l, PDeque m => eq_list l m
-  | PSet f l, PSet g m => Bool.eqb f g && eq_list l m
+  | PSet f l, PSet g m =>
+      (* iteration order of a Python set is not observable: compare as sets *)
+      Bool.eqb f g && Nat.eqb (length l) (length m) &&
+      (fix all_in (l : list pyval) : bool :=
+         match l with
+         | [] => true
+         | x :: l' => existsb (fun y => pyval_eqb x y) m && all_in l'
+         end) l
   | PDict kv, PDict kw =>
       (fix eq_kv (l m : list (pyval * pyval)) {struct l} : bool :=
          match l, m with
@@ -58,6 +65,16 @@ Definition res_val_eqb (a b : res pyval) : bool :=
   end.
 
 (* weaker comparison: only the fact of raising is compared, not the class *)
+(* exception classes up to "is a TypeError or ValueError" *)
+Definition exn_equiv (a b : exn) : bool := exn_eqb a b || (is_te_ve a && is_te_ve b).
+
+Definition res_val_equiv (a b : res pyval) : bool :=
+  match a, b with
+  | Ok x, Ok y => pyval_eqb x y
+  | Raise e, Raise e' => exn_equiv e e'
+  | _, _ => false
+  end.
+
 Definition res_val_eqb_weak (a b : res pyval) : bool :=
   match a, b with
   | Ok x, Ok y => pyval_eqb x y
